@@ -201,7 +201,57 @@ func (s *Sim) finishSQL(c *call, r sqlResult, _ bool) {
 	}
 }
 
+// crashPoint is consulted at every external call of the armed incarnation; returns
+// "", "before" or "after".
+func (s *Sim) crashPoint(inc string) string {
+	ca := s.spec.CrashAt
+	if ca == nil || s.crashDone || s.crashInc == "" || inc != s.crashInc {
+		return ""
+	}
+	s.crashCount++
+	if s.crashCount < ca.N {
+		return ""
+	}
+	s.crashDone = true
+	s.stats.Probes["crash_point_fired"]++
+	s.stats.Probes[fmt.Sprintf("crash_point_n_%03d", ca.N)]++
+	s.mon.onFault("crash_at", inc)
+	d := s.daemons[inc]
+	if d == nil {
+		return ""
+	}
+	host := d.host
+	switch ca.Mode {
+	case "zkcut":
+		s.trace("CRASHPOINT zkcut %s n=%d", inc, ca.N)
+		s.stats.Faults["crashpoint_zkcut"]++
+		s.net.setBlock(host, "zk", "blackhole")
+		s.after(ms(ca.CutMs), "heal-zkcut", func() {
+			s.net.setBlock(host, "zk", "")
+			s.net.flushHeld()
+		})
+		return ""
+	case "before":
+		s.stats.Faults["crashpoint_before_call"]++
+	default:
+		s.stats.Faults["crashpoint_after_call"]++
+	}
+	if ca.RestartMs > 0 {
+		s.after(ms(ca.RestartMs), "restart-after-crashpoint", func() { s.startDaemon(host) })
+	}
+	if ca.Mode == "before" {
+		return "before"
+	}
+	return "after"
+}
+
 func (s *Sim) deliverSQL(c *call, flt string) {
+	switch s.crashPoint(c.src) {
+	case "before":
+		flt = "crash_before"
+	case "after":
+		flt = "crash_after"
+	}
 	if flt == "crash_before" {
 		if d := s.daemons[c.src]; d != nil {
 			s.trace("CRASH-BEFORE %s %s", c.key, c.query)
@@ -345,6 +395,19 @@ func (s *Sim) zkFault(c *memConn, op int32, req []byte) string {
 	s.occ[base]++
 	key := fmt.Sprintf("%s|%d", base, s.occ[base])
 	s.mon.onZKCall(c.owner, key)
+	switch s.crashPoint(c.owner) {
+	case "before":
+		if d := s.daemons[c.owner]; d != nil {
+			s.killDaemon(d, false)
+		}
+		return "reset_before"
+	case "after":
+		if d := s.daemons[c.owner]; d != nil {
+			dd := d
+			s.after(0, "crash-after-zk", func() { s.killDaemon(dd, false) })
+		}
+		return ""
+	}
 	if f, ok := s.explicit[key]; ok {
 		if strings.HasPrefix(f, "zk:") {
 			s.noteFault(key, f)
